@@ -20,7 +20,7 @@ CHECKS = {
    "process kills and file copies, not power loss; expiry is compared with a one-sided bracket (t_before_call + promised lease - 1 s).",
    "fault enumeration over crash points (copy+reopen after every reply, SIGKILL of a child at acknowledged points) with a reference-model oracle; ASan in the thorough tier", "4 C03"),
  "C04": ("alloc+allocconc", "exploration",
-   "12000 (quick) / 384000 (thorough) sequential Allocate/Free histories of 20-200 operations on generated IPv4 and IPv6 pools, every result decided online by a set-of-outstanding-blocks model, ending in a drain audit, on the native build and (2000 / 48000 histories) on a GOARCH=386 build of the allocator packages; pool bases also in link-local, multicast, loopback, IPv4-mapped and other special address space; the engine overwrites its own hint buffers after every call and what it was given must not change with them; plus 400 / 12800 concurrent histories (2-16 goroutines, 1-16 blocks, incl. Frees of blocks the caller does not hold, built -race) checked for linearizability with porcupine.",
+   "12000 (quick) / 768000 (thorough) sequential Allocate/Free histories of 20-200 operations on generated IPv4 and IPv6 pools, every result decided online by a set-of-outstanding-blocks model, ending in a drain audit, on the native build and (2000 / 48000 histories) on a GOARCH=386 build of the allocator packages; pool bases also in link-local, multicast, loopback, IPv4-mapped and other special address space; the engine overwrites its own hint buffers after every call and what it was given must not change with them; plus 400 / 12800 concurrent histories (2-16 goroutines, 1-16 blocks, incl. Frees of blocks the caller does not hold, built -race) checked for linearizability with porcupine.",
    "math/big address arithmetic is the reference; concurrency coverage is what the Go scheduler produced (overlap counts in the evidence); porcupine timeouts are inconclusive.",
    "online reference-model monitor + porcupine linearizability check of recorded histories + Go race detector", "4 C04-C07"),
  "C05": ("alloc", "exploration",
@@ -36,7 +36,7 @@ CHECKS = {
    "hints carrying a mask that is not 128 bits are only checked for C05.",
    "online reference-model monitor over generated hints", "4 C04-C07"),
  "C08": ("prefix+prefixconc", "exploration",
-   "512 (quick) / 51200 (thorough) message histories (1-6 clients, every DUID kind plus near-duplicate identifiers, 0-3 IA_PD x 0-3 hints of every class incl. canonical sub-prefixes of a block and 60-140-hint renewals, 0-2 relay layers, retransmissions) as wire bytes through HandleMsg6 into the prefix plugin (pool written canonically or, in a third of the histories, as address/length with host bits set; a quarter of the histories at debug log level); a per-client prefix model decides every reply (IA_PD count and IAIDs, prefix or NoPrefixAvail, in pool, aligned, length, lifetimes, disjoint across clients); concurrent bursts are checked with porcupine under -race. Thorough adds 900 plugin instances with small pools (most of them exhausted, clients with several leases) that get a second history after a real wait of 3615 s, when every lifetime handed out has run out: a lapsed block may go to anyone, but never to two clients while the new lifetimes run.",
+   "512 (quick) / 153600 (thorough) message histories (1-6 clients, every DUID kind plus near-duplicate identifiers, 0-3 IA_PD x 0-3 hints of every class incl. canonical sub-prefixes of a block and 60-140-hint renewals, 0-2 relay layers, retransmissions) as wire bytes through HandleMsg6 into the prefix plugin (pool written canonically or, in a third of the histories, as address/length with host bits set; a quarter of the histories at debug log level); a per-client prefix model decides every reply (IA_PD count and IAIDs, prefix or NoPrefixAvail, in pool, aligned, length, lifetimes, disjoint across clients); concurrent bursts are checked with porcupine under -race. Thorough adds 900 plugin instances with small pools (most of them exhausted, clients with several leases) that get a second history after a real wait of 3615 s, when every lifetime handed out has run out: a lapsed block may go to anyone, but never to two clients while the new lifetimes run.",
    "lifetimes are checked as 0 < preferred <= valid <= 1h; which free block is chosen is never asserted.",
    "online reference-model monitor + porcupine linearizability check + Go race detector", "4 C08-C09"),
  "C09": ("prefix+prefixconc", "exploration",
@@ -48,7 +48,7 @@ CHECKS = {
    "'eventually' restated as bounded progress; deleting the file and creating it again (a window without the file) and unclassified line shapes are not driven; stdlib net.ParseMAC/ParseIP define 'every spelling'.",
    "reference-parser monitor + differential (with/without plugin) oracle + version-trace monitor under autorefresh", "4 C10"),
  "C11": ("match4+raceserver+wire", "exploration",
-   "8 plugin chains (8 processes quick / 160 thorough), each answering the full 256-opcode x 23-message-type-shape matrix, 240 answered requests with freshly drawn irrelevant options (PXE / HTTP-boot vendor classes with machine identifiers, ...), systematic hlen 0..17+, option 61/82 lengths 1..255 (also split over several instances) and 1500/6000 generated and mutated datagrams inside a private network namespace; UDP writes (capture hook) and sniffed link-level frames are the replies; oracle = the statement's table. A -race slice sends the same client message through two relays at once (each copy must get its own giaddr/option 82 back); the real binary is started on an alternate port (dual-stack; DHCPv4 messages of any opcode wrapped in DHCPv4-over-DHCPv6 queries must stay unanswered), with replies larger than the MTU, without CAP_NET_RAW and with a late listen address (2 cases quick / 16 thorough) and every reply it does send must mirror its request; thorough adds the main history of the real binary over veth.",
+   "8 plugin chains (8 processes quick / 320 thorough), each answering the full 256-opcode x 23-message-type-shape matrix, 240 answered requests with freshly drawn irrelevant options (PXE / HTTP-boot vendor classes with machine identifiers, ...), systematic hlen 0..17+, option 61/82 lengths 1..255 (also split over several instances) and 1500/6000 generated and mutated datagrams inside a private network namespace; UDP writes (capture hook) and sniffed link-level frames are the replies; oracle = the statement's table. A -race slice sends the same client message through two relays at once (each copy must get its own giaddr/option 82 back); the real binary is started on an alternate port (dual-stack; DHCPv4 messages of any opcode wrapped in DHCPv4-over-DHCPv6 queries must stay unanswered), with replies larger than the MTU, without CAP_NET_RAW and with a late listen address (2 cases quick / 16 thorough) and every reply it does send must mirror its request; thorough adds the main history of the real binary over veth.",
    "codec verdict defines 'unparseable'; zero-length options 61/82 and hlen > 16 are no-crash-only; that a reply is sent at all is C13.",
    "decision-table monitor over captured replies and sniffed frames", "4 C11"),
  "C12": ("match6+raceserver+wire", "exploration",
@@ -60,11 +60,11 @@ CHECKS = {
    "exhaustive over the five behaviours up to the stated length; identities are pointer values printed by the plugins themselves.",
    "invocation-trace monitor (online checker of the order/at-most-once/pass-through specification)", "4 C13"),
  "C14": ("sid", "exploration",
-   "64 (quick) / 5120 (thorough) accepted server_id spellings, each hosted in a fresh server process; DHCPv6: all 256 message types x 10 kinds of Server Identifier (incl. a copy of the message's own client identifier) x relay depth 0-2 and around the hop-count limit (8..40) decided by the RFC 8415 section 16 table; DHCPv4: siaddr x option 54 x DISCOVER/REQUEST matrix, with relay agent information that may carry a Server Identifier Override sub-option naming this or another server; every answered message must carry exactly this server's identifier; so must every OFFER/ACK of the real binary's environment variants (alternate port, replies larger than the MTU at link level, no CAP_NET_RAW, late address).",
+   "64 (quick) / 76800 (thorough) accepted server_id spellings, each hosted in a fresh server process; DHCPv6: all 256 message types x 10 kinds of Server Identifier (incl. a copy of the message's own client identifier) x relay depth 0-2 and around the hop-count limit (8..40) decided by the RFC 8415 section 16 table; DHCPv4: siaddr x option 54 x DISCOVER/REQUEST matrix, with relay agent information that may carry a Server Identifier Override sub-option naming this or another server; every answered message must carry exactly this server's identifier; so must every OFFER/ACK of the real binary's environment variants (alternate port, replies larger than the MTU at link level, no CAP_NET_RAW, late address).",
    "0.0.0.0 in option 54 is no-crash-only; types the server never answers are expected to stay unanswered.",
    "decision-table monitor over the full request matrix, one configuration per server process", "4 C14"),
  "C15": ("addr4+wire+raceserver", "exploration",
-   "the full 768-cell table (giaddr x ciaddr x broadcast flag x reply type incl. plugin-made NAK x yiaddr x bound/unbound x arrival link) with random hardware types, replies grown to 1458-1472 bytes in some repetitions (frames of 1500-1514 bytes are still link-level unicasts), 3 (quick) / 64 (thorough) repetitions with fresh addresses, inside a private network namespace: UDP destination/port/IP_PKTINFO at the server's WriteTo, link-level unicasts as real frames sniffed on veth peers (link, dst MAC, dst IP, ports, payload); the real cmds/coredhcp binary over two veth pairs (which link a reply leaves on; also listening on port 6767: relayed replies still go to giaddr:67, client replies to port 68; also without any listen key: replies leave on the arrival link); a -race slice with broadcast and link-level replies for requests arriving on two interfaces at once.",
+   "the full 768-cell table (giaddr x ciaddr x broadcast flag x reply type incl. plugin-made NAK x yiaddr x bound/unbound x arrival link) with random hardware types, replies grown to 1458-1472 bytes in some repetitions (frames of 1500-1514 bytes are still link-level unicasts), 3 (quick) / 384 (thorough) repetitions with fresh addresses, inside a private network namespace: UDP destination/port/IP_PKTINFO at the server's WriteTo, link-level unicasts as real frames sniffed on veth peers (link, dst MAC, dst IP, ports, payload); the real cmds/coredhcp binary over two veth pairs (which link a reply leaves on; also listening on port 6767: relayed replies still go to giaddr:67, client replies to port 68; also without any listen key: replies leave on the arrival link); a -race slice with broadcast and link-level replies for requests arriving on two interfaces at once.",
    "hlen 6 on the link-level path; needs the namespace (otherwise inconclusive).",
    "decision-table monitor over the capture hook and an AF_PACKET sniffer; black-box run of the real binary", "4 C15, 10.6"),
  "C16": ("raceserver+rangeconc+prefixconc+allocconc+wire", "exploration",
@@ -72,7 +72,7 @@ CHECKS = {
    "race detector judges executed accesses only; schedules are the scheduler's (overlap pairs, buffer-reuse-in-flight and porcupine verdict counts are in the evidence).",
    "Go race detector + porcupine linearizability checking of recorded histories + reply-echo/version-trace monitors", "4 C16"),
  "C17": ("opt", "exploration",
-   "480 (quick) / 38400 (thorough) option-plugin configurations from the accepted grammar (every decimal spelling of integers; also 64-80 addresses and 9-14 long domain names sharing early and late parents, i.e. option values > 255 bytes), each hosted alone in a fresh server process (a quarter through a YAML file and config.Load, URLs with ${...} variables of boot firmware included) and sent 48 requests (request-list subsets incl. absent, DHCPv4 lists that repeat codes, OFFER/ACK, yiaddr assigned or not, option 51 pre-set or not); differential oracle against the same chain without the plugin: exactly the configured value (encoded independently from the RFCs), once, untouched otherwise, chain continues/stops/drops as stated. The real binary with 70 DNS servers and a 12-name search list (option values > 255 bytes, split on the wire) must deliver them complete by UDP broadcast, to a relay and inside the link-level unicast frame.",
+   "480 (quick) / 76800 (thorough) option-plugin configurations from the accepted grammar (every decimal spelling of integers; also 64-80 addresses and 9-14 long domain names sharing early and late parents, i.e. option values > 255 bytes), each hosted alone in a fresh server process (a quarter through a YAML file and config.Load, URLs with ${...} variables of boot firmware included) and sent 48 requests (request-list subsets incl. absent, DHCPv4 lists that repeat codes, OFFER/ACK, yiaddr assigned or not, option 51 pre-set or not); differential oracle against the same chain without the plugin: exactly the configured value (encoded independently from the RFCs), once, untouched otherwise, chain continues/stops/drops as stated. The real binary with 70 DNS servers and a 12-name search list (option values > 255 bytes, split on the wire) must deliver them complete by UDP broadcast, to a relay and inside the link-level unicast frame.",
    "values outside the wire range and repeated codes in DHCPv6 option request lists are outside the quantifier; nbp's stop is not asserted.",
    "differential reference-table monitor (with vs without the plugin), one configuration per server process", "4 C17"),
  "C18": ("config", "exploration",
